@@ -6,12 +6,15 @@ only through membership of its rules (`G_congr`), stable models depend on a grou
 membership (`stable_mem_congr`), and the specification likewise (`tsm_mem_congr`).  Permuting the
 statements of a part, repeating a statement and distributing the statements over files (each keeping its
 part) all preserve membership.  For theory atoms: whatever the order in which formulas and todo entries
-are processed, a solution of the equation system is unique (`formula_values_order_indep`).
+are processed, a solution of the equation system is unique (`formula_values_order_indep`); the todo list of `Theory`
+holds every requested (step, formula) pair exactly once whatever the order and multiplicity of the requests
+(`todo_entries_once`, `todo_request_order_independent`; the model `addTodo` is compared with the real `add_todo`).
 The layout of the *text* (directives, files starting in `base`) is clingo's parser and `transform`; it is
 covered by the metamorphic search on the implementation.
 -/
 import TelProofs.OrderIndep
 import TelProofs.Tseitin
+import TelProofs.TodoProofs
 
 namespace TelProofs.C12
 open TelSpec TelModel TelProofs
@@ -62,5 +65,17 @@ example : SameRules [(⟨.always, .choice ["a"], []⟩ : TRule), ⟨.dynamic, .a
   constructor
   · rintro (h | h) <;> simp [h]
   · rintro (h | h | h) <;> simp [h]
+
+/-- `Theory.add_todo`: after any sequence of requests the queue holds exactly the requested (step, formula) pairs, each
+    once — the same sub-formula in several theory atoms or a repeated statement queues nothing twice -/
+theorem todo_entries_once (ks : List TodoKey) : (todoAfter ks).Nodup ∧ ∀ x, x ∈ todoAfter ks ↔ x ∈ ks :=
+  todo_exactly_once ks
+
+/-- … and which pairs are queued does not depend on the order or multiplicity of the requests -/
+theorem todo_request_order_independent (ks ks' : List TodoKey) (h : ∀ x, x ∈ ks ↔ x ∈ ks') :
+    ∀ x, x ∈ todoAfter ks ↔ x ∈ todoAfter ks' :=
+  todo_set_independent ks ks' h
+
+example : todoAfter [(1, "a"), (0, "(a&b)"), (1, "a"), (1, "b"), (0, "(a&b)")] = [(1, "a"), (0, "(a&b)"), (1, "b")] := by decide
 
 end TelProofs.C12
